@@ -9,7 +9,7 @@ p=$(readlink -f "$p")
 export PATH=/opt/veriftools/go1.26.8/bin:$PATH GOFLAGS=-mod=mod GOPROXY=off GOSUMDB=off GOTOOLCHAIN=local
 wt=$(mktemp -d /tmp/govc-mut.XXXXXX)
 git -C /repo worktree add -q --detach "$wt" HEAD || exit 2
-(cd /repo && find . -name contracts_verif.go | while read f; do mkdir -p "$wt/$(dirname $f)"; cp "$f" "$wt/$f"; done)
+(cd ${CONTRACTS_FROM:-/repo} && find . -name contracts_verif.go | while read f; do mkdir -p "$wt/$(dirname $f)"; cp "$f" "$wt/$f"; done)
 git -C "$wt" apply "$p" || { echo "patch does not apply"; git -C /repo worktree remove --force "$wt"; exit 2; }
 G=${GOVC:-/verif/bin/govc5}
 "$G" "$@" -root "$wt"
